@@ -54,6 +54,30 @@ pub fn spec_for(seed: u64, index: u64) -> sysgen::SysSpec {
     spec
 }
 
+/// btor2 texts with the naming situations that only come out of the reader
+fn name_templates() -> Vec<String> {
+    let mut v = vec![];
+    for (sort, zero) in [("sort bitvec 4", "zero 1"), ("sort bitvec 1", "zero 1")] {
+        // named state driven directly to an output of another name / the same name / an unnamed output
+        for out in ["output 3 q", "output 3 cnt", "output 3"] {
+            v.push(format!("1 {sort}\n2 input 1 d\n3 state 1 cnt\n4 {zero}\n5 init 1 3 4\n6 next 1 3 2\n7 {out}\n"));
+            // the same, the state line anonymous and named by a trailing alias line
+            v.push(format!("1 {sort}\n2 input 1 d\n3 state 1\n4 {zero}\n5 init 1 3 4\n6 next 1 3 2\n7 {out}\n8 uext 1 3 0 cnt\n"));
+        }
+        // input driven directly to an output of another name
+        v.push(format!("1 {sort}\n2 input 1 a\n3 state 1 r\n4 next 1 3 2\n5 output 2 a_out\n6 output 3 r_out\n"));
+    }
+    // 1-bit named state that is directly a bad state and an output
+    v.push("1 sort bitvec 1\n2 input 1 d\n3 state 1 busy\n4 zero 1\n5 init 1 3 4\n6 next 1 3 2\n7 output 3 q\n8 bad 3\n".to_string());
+    v.push("1 sort bitvec 1\n2 input 1 d\n3 state 1\n4 zero 1\n5 init 1 3 4\n6 next 1 3 2\n7 output 3 q\n8 bad 3\n9 uext 1 3 0 busy\n".to_string());
+    // memories: array state exported under another name / the same name / unnamed, named directly or by alias
+    for out in ["output 4 mem_out", "output 4 mem", "output 4"] {
+        v.push(format!("1 sort bitvec 2\n2 sort bitvec 8\n3 sort array 1 2\n4 state 3 mem\n5 input 1 addr\n6 input 2 data\n7 write 3 4 5 6\n8 next 3 4 7\n9 {out}\n10 read 2 4 5\n11 output 10 rd\n"));
+        v.push(format!("1 sort bitvec 2\n2 sort bitvec 8\n3 sort array 1 2\n4 state 3\n5 input 1 addr\n6 input 2 data\n7 write 3 4 5 6\n8 next 3 4 7\n9 {out}\n10 read 2 4 5\n11 output 10 rd\n12 uext 3 4 0 mem\n"));
+    }
+    v
+}
+
 fn is_autogen(name: &str) -> bool {
     for p in ["_constraint", "_output", "_bad", "_input", "_state"] {
         if let Some(rest) = name.strip_prefix(p) {
@@ -92,7 +116,7 @@ fn cycle(ctx: &mut Context, sys: &TransitionSystem) -> Result<(String, Transitio
     }
 }
 
-fn check_system(rep: &mut Report, ctx: &mut Context, sys: &TransitionSystem, label: &str, replay: serde_json::Value, fast: &mut Proc, hard: &mut Portfolio, soft: bool) {
+fn check_system(rep: &mut Report, ctx: &mut Context, sys: &TransitionSystem, label: &str, replay: serde_json::Value, fast: &mut Proc, hard: &mut Portfolio, soft: bool, parsed_original: bool) {
     crate::panics::set_context(format!("system {label}"));
     rep.count("programs", 1);
     let (text, sys2) = match cycle(ctx, sys) {
@@ -152,6 +176,36 @@ fn check_system(rep: &mut Report, ctx: &mut Context, sys: &TransitionSystem, lab
     syscmp::decide_pairs(rep, ctx, fast, hard, &pairs, &cfg);
     if rep.violations.len() != before {
         return;
+    }
+    // name clause, first cycle: when the original itself came out of the reader (shipped files, text templates),
+    // its explicit, pairwise distinct names must already survive this cycle
+    if parsed_original {
+        rep.count("obligations", 1);
+        let n1 = interface_names(ctx, sys);
+        let n2 = interface_names(ctx, &sys2);
+        let mut counts: HashMap<&str, usize> = HashMap::new();
+        for (_, n) in n1.iter() {
+            *counts.entry(n.as_str()).or_default() += 1;
+        }
+        let mut bad = vec![];
+        let mut kind = "";
+        if n1.len() == n2.len() {
+            for ((w, a), (_, b)) in n1.iter().zip(n2.iter()) {
+                if !a.is_empty() && !is_autogen(a) && counts[a.as_str()] == 1 && a != b {
+                    if kind.is_empty() {
+                        kind = if w.starts_with("state") { "state" } else if w.starts_with("input") { "input" } else { "output" };
+                    }
+                    bad.push(format!("{w}: `{a}` became `{b}`"));
+                }
+            }
+        }
+        if bad.is_empty() {
+            rep.count("discharged", 1);
+            rep.count("name_clause_first_cycle_checked", 1);
+        } else {
+            rep.violation(Role::new(SITE, "system", &format!("names;parsed-original;{kind}")), format!("{label}: names of a parsed system do not survive a write/read cycle: {}", bad.join("; ")), json!({"system": replay, "first_text": text}));
+            return;
+        }
     }
     // name clause: explicit, pairwise distinct names of the re-read system survive a further cycle
     rep.count("obligations", 1);
@@ -234,7 +288,7 @@ pub fn run(tier: Tier, seed: u64, replay: Option<serde_json::Value>) -> i32 {
                 if i % 311 == 0 {
                     r.sample(json!({"generated_system": spec.show(), "btor2": crate::panics::guarded(|| btor2::serialize_to_str(&ctx, &sys)).unwrap_or_default()}), 4);
                 }
-                check_system(&mut r, &mut ctx, &sys, &format!("generated system #{i} ({})", spec.pattern), json!({"index": i, "seed": seed, "text": spec.show()}), &mut fast, &mut hard, false);
+                check_system(&mut r, &mut ctx, &sys, &format!("generated system #{i} ({})", spec.pattern), json!({"index": i, "seed": seed, "text": spec.show()}), &mut fast, &mut hard, false, false);
             }
             r.count("solver_time_ms", fast.solver_time.as_millis() as u64 + hard.stats().0);
             r.count("solver_queries", fast.queries + hard.stats().1);
@@ -254,7 +308,7 @@ pub fn run(tier: Tier, seed: u64, replay: Option<serde_json::Value>) -> i32 {
             match crate::panics::guarded(|| btor2::parse_file_with_ctx(f, &mut ctx)) {
                 Ok(Some(sys)) => {
                     r.count("shipped_files", 1);
-                    check_system(&mut r, &mut ctx, &sys, &format!("{}", f.strip_prefix(crate::report::repo_root()).unwrap_or(f).display()), json!({"file": f.display().to_string()}), &mut fast, &mut hard, true);
+                    check_system(&mut r, &mut ctx, &sys, &format!("{}", f.strip_prefix(crate::report::repo_root()).unwrap_or(f).display()), json!({"file": f.display().to_string()}), &mut fast, &mut hard, true, true);
                 }
                 _ => r.count("shipped_files_not_readable", 1),
             }
@@ -265,6 +319,24 @@ pub fn run(tier: Tier, seed: u64, replay: Option<serde_json::Value>) -> i32 {
         .collect();
     for p in fparts {
         rep.merge(p);
+    }
+    // text templates: naming situations only the reader produces (anonymous state / input lines named by a
+    // trailing alias line, states driven directly to named and unnamed outputs, array-typed signals)
+    if replay.is_none() {
+        let mut r = Report::new("C09", tier, seed, "translation_validation");
+        let mut fast = Proc::new(Which::Z3New, 3000);
+        let mut hard = Portfolio::new(timeout);
+        for (k, txt) in name_templates().iter().enumerate() {
+            let mut ctx = Context::default();
+            match crate::panics::guarded(|| btor2::parse_str(&mut ctx, txt, Some("tmpl"))) {
+                Ok(Some(sys)) => {
+                    r.count("name_templates", 1);
+                    check_system(&mut r, &mut ctx, &sys, &format!("name template #{k}"), json!({"template": k, "text": txt}), &mut fast, &mut hard, false, true);
+                }
+                _ => r.undecided.push(format!("name template #{k} is not read by the reader")),
+            }
+        }
+        rep.merge(r);
     }
     rep.extra.insert("bounds".into(), json!({"generated_systems": n, "patterns": sysgen::PATTERNS, "shipped_designs": "all inputs/**/*.btor{,2} the reader accepts", "per_query_cap_ms": timeout}));
     rep.extra.insert("functions_encoded".into(), json!(["btor2::serialize_to_str", "btor2::parse_str"]));
